@@ -405,6 +405,10 @@ func (e *env) checkIssued(ic *structs.IssuedCert, want ident, what string) [][2]
 		if why != "" || got.kind != want.kind || got.dc != want.dc || got.name != want.name || !strings.EqualFold(got.host, td) {
 			add("C12:issued-identity-differs-from-authorized:"+want.kind, fmt.Sprintf("authorized %v but the certificate's URI SAN %q reads as %v host=%s (%s)", want, leaf.URIs[0].String(), got, got.host, why))
 		}
+		// the authority of the identity is the trust domain itself: "<trust domain>:<port>" names something else
+		if h := leaf.URIs[0].Host; !strings.EqualFold(h, td) {
+			add("C12:issued-identity-outside-trust-domain:"+want.kind, fmt.Sprintf("the certificate's URI SAN %q has authority %q, the cluster's trust domain is %q", leaf.URIs[0].String(), h, td))
+		}
 		// what the server reports must be what the certificate says
 		rep := map[string]string{"service": ic.ServiceURI, "agent": ic.AgentURI, "mesh-gateway": ic.KindURI, "server": ic.ServerURI}[want.kind]
 		if rep != leaf.URIs[0].String() {
